@@ -14,14 +14,14 @@
                     extracted predicate):
                       every handle argument is an array handle returned earlier, data mentions only handles returned so far;
                       an element-size argument is the array's own and not 0; a stored element has that many words;
-                      an index is not +infinity (generated Rust then reads element 0, the contract the last);
-                      `len` only on arrays of one-word elements (generated Rust counts words);
                       a literal has fewer than 2^64 words.
+                    (Since the repairs of findings C18/R1 and R2 there is no hypothesis on the index — every f64 bit pattern,
+                    +infinity included — and none on the element size of `len`.)
    [res_rel t] (Prims/Pre.v) relates a contract result to an implementation result through the table t of the raw handles
    the implementation returned itself. *)
 From Coq Require Import List ZArith NArith Bool.
 From Mimium Require Import Lmmm.Machine Prims.Float Prims.Spec Prims.Impl Prims.Vm Prims.Pre Prims.Agree
-  RustRt.Model RustRt2.Model RustRt2.Ops RustRt2.Handles RustRt2.Mem RustRt2.ArrRun RustRt2.Closure RustRt2.Differs.
+  RustRt.Model RustRt2.Model RustRt2.Ops RustRt2.Handles RustRt2.Mem RustRt2.ArrStep RustRt2.ArrRun RustRt2.Closure RustRt2.Differs.
 Import ListNotations.
 Local Open Scope N_scope.
 
@@ -142,24 +142,7 @@ Theorem C18_rt_closure_state_own : forall c x i v c' x' prev,
     prev = Z.to_N (fst (ss_mem (Z.of_N v) (c_st cl))).
 Proof. exact closure_state_own. Qed.
 
-(* ---- outside the hypotheses: where generated Rust differs (witnesses replayed on the real runtime; the first two are
-   reached by compiled programs, see RustRt2/Differs.v) ---- *)
-Theorem C18_rt_index_infinity_differs :
-  spec_run (spec_init 0 0 0) w_inf = [SArrH 0; SVals [VNum F30]] /\
-  vm_run 0 w_inf = [IHandle 4294967297; IWords [F30]] /\
-  tpl_run (map XBase w_inf) = [IHandle 1; IWords [F10]] /\
-  xpre_run rt_pre (spec_init 0 0 0) (map XBase w_inf) = false /\
-  pre_run vm_pre (spec_init 0 0 0) w_inf = true.
-Proof. exact index_infinity_differs. Qed.
-
-Theorem C18_rt_len_words_differs :
-  spec_run (spec_init 0 0 0) w_len2 = [SArrH 0; SVals [VNum (f64_of_N 2)]] /\
-  vm_run 0 w_len2 = [IHandle 4294967297; IWords [f64_of_N 2]] /\
-  tpl_run (map XBase w_len2) = [IHandle 1; IWords [f64_of_N 4]] /\
-  xpre_run rt_pre (spec_init 0 0 0) (map XBase w_len2) = false /\
-  pre_run vm_pre (spec_init 0 0 0) w_len2 = true.
-Proof. exact len_words_differs. Qed.
-
+(* ---- outside the hypotheses: where generated Rust differs (witnesses replayed on the real runtime) ---- *)
 Theorem C18_rt_zero_handle_differs :
   xspec_run (spec_init 0 0 0) w_zero = [SFault FInvalidHandle] /\
   tpl_run w_zero = [IHandle 1; IWords [7]] /\
@@ -172,6 +155,29 @@ Theorem C18_rt_float_bits_are_a_handle :
    let m := fst (ms_store m (encode_memory 1) [F30] 1) in
    ms_load m F22_WORD 1 = TOk [F30]).
 Proof. exact float_bits_are_a_handle. Qed.
+
+(* ---- REPAIRED differences (findings C18/R1 R2), kept as regression: generated Rust, the VM and the contract agree, and the
+   sequences are inside the hypotheses now ---- *)
+Example C18_rt_index_infinity_agrees :
+  spec_run (spec_init 0 0 0) w_inf = [SArrH 0; SVals [VNum F30]] /\
+  vm_run 0 w_inf = [IHandle 4294967297; IWords [F30]] /\
+  tpl_run (map XBase w_inf) = [IHandle 1; IWords [F30]] /\
+  xpre_run rt_pre (spec_init 0 0 0) (map XBase w_inf) = true /\
+  pre_run vm_pre (spec_init 0 0 0) w_inf = true.
+Proof. exact index_infinity_agrees. Qed.
+
+Example C18_rt_len_counts_elements :
+  spec_run (spec_init 0 0 0) w_len2 = [SArrH 0; SVals [VNum (f64_of_N 2)]] /\
+  vm_run 0 w_len2 = [IHandle 4294967297; IWords [f64_of_N 2]] /\
+  tpl_run (map XBase w_len2) = [IHandle 1; IWords [f64_of_N 2]] /\
+  xpre_run rt_pre (spec_init 0 0 0) (map XBase w_len2) = true /\
+  pre_run vm_pre (spec_init 0 0 0) w_len2 = true.
+Proof. exact len_counts_elements. Qed.
+
+(* the index conversion of the emitted element accesses is the contract's, for EVERY index word (finite, NaN, both
+   infinities) *)
+Theorem C18_rt_index_is_contract : forall idx len, len <> 0 -> ta_index idx len = clamp_index idx len.
+Proof. exact ta_index_clamp. Qed.
 
 (* ---- the hypotheses are satisfiable ---- *)
 Example C18_rt_ex_pre : xpre_run rt_pre (spec_init 0 0 0) ex_ops = true.
